@@ -7,13 +7,13 @@ CONSTANTS
   ManIds = {}
   Cat <- FCat
   UploadIds = {"u1", "u2"}
-  ImmChoices = {FALSE, TRUE}
+  ImmChoices = {FALSE}
   BlockSize = 8
   Pos <- FPos
   Prefix = ""
   Chars <- MCChars
   MCKinds = {"checker", "select"}
-  ErrIds = {"E_DENIED", "E_UNKNOWN", "E_CUSTOM1"}
+  ErrIds = {"E_DENIED", "E_CUSTOM1"}
   MaxSteps = 2
   HostileSteps = 1
   AllScopes = TRUE
